@@ -20,13 +20,24 @@ Property theorems about `FdtdxModel/C34.lean`; all sizes / coordinates are arbit
                         some symmetric axis is rejected)
   C34_walls_electric    a wall is created on axis a iff sym[a] = -1 (never for +1 or 0); its slice is one cell thick at
                         the reduced min edge and spans the reduced volume on the other axes
-  C34_wall_name_fresh   the generated wall name is not in use
+  C34_wall_name_fresh   the generated wall name is not in use (no hypothesis: the decimal suffix rendering is proved
+                        injective, `wallCandidate_injective`)
+  explicit non-uniform grids (`RectilinearGrid.reduce_symmetric`, any ordered field / any scalars):
+  C34_grid_nonsym, C34_grid_kept_edges   the reduced edges are exactly the upper-half edges e[n/2 + i]
+  C34_grid_cells_agree  the grid is rejected for its cell count exactly when the integer-slice reduction rejects the
+                        axis, and the reduced cell count is that of `reducedVol`
+  C34_grid_accept_spec  what is required of the widths: |w[i] - w[n-1-i]| ≤ rtol·|w[n-1-i]| for every i
+  C34_grid_roundtrip    mirror-symmetric widths: mirroring the reduced widths reproduces the full widths
+  C34_grid_roundtrip_rtol0 / C34_grid_roundtrip_tol   … for a grid accepted with rtol = 0 exactly; with rtol > 0 every
+                        reconstructed width is within rtol (relative) of the original one
 -/
 import FdtdxModel.C34
 import Mathlib.Tactic.Linarith
 import Mathlib.Tactic.Ring
 import Mathlib.Data.List.Nodup
 import Mathlib.Data.List.Perm.Subperm
+import Mathlib.Algebra.Order.Field.Basic
+import Mathlib.Algebra.Order.AbsoluteValue.Basic
 
 namespace Fdtdx.C34
 
@@ -187,10 +198,38 @@ theorem C34_wall_slice (n0 n1 n2 : Int) (a : Nat) (ha : a < 3) :
 
 example : wallAxes [-1, 1, -1] = [0, 2] ∧ wallAxes [1, 0, 1] = [] := by decide
 
-/-- C34_wall_name_fresh -/
-theorem C34_wall_name_fresh (used : List String) (a : Nat)
-    (hinj : ∀ i j, wallCandidate a i = wallCandidate a j → i = j) :
-    wallName used a ∉ used := by
+/-- decimal rendering of the counter is injective -/
+theorem natToString_inj (i j : Nat) (h : toString i = toString j) : i = j := by
+  have h' : i.repr = j.repr := by simpa [Nat.toString_eq_repr] using h
+  have h2 : Nat.toDigits 10 i = Nat.toDigits 10 j := by
+    rw [← Nat.toList_repr, ← Nat.toList_repr, h']
+  have := congrArg (fun l => Nat.ofDigitChars 10 l 0) h2
+  simpa [Nat.ofDigitChars_ten_toDigits] using this
+
+private theorem str_append_left_cancel (b s t : String) (h : b ++ s = b ++ t) : s = t := by
+  have := congrArg String.toList h
+  simp only [String.toList_append] at this
+  exact String.toList_inj.mp (List.append_cancel_left this)
+
+/-- the candidate names `_sym_wall_x`, `_sym_wall_x_1`, `_sym_wall_x_2`, … are pairwise distinct -/
+theorem wallCandidate_injective (a i j : Nat) (h : wallCandidate a i = wallCandidate a j) : i = j := by
+  unfold wallCandidate at h
+  have h' := str_append_left_cancel _ _ _ h
+  by_cases hi : i = 0 <;> by_cases hj : j = 0
+  · omega
+  · exfalso
+    simp only [hi, hj, if_true, if_false] at h'
+    have := congrArg String.toList h'
+    simp [String.toList_append] at this
+  · exfalso
+    simp only [hi, hj, if_true, if_false] at h'
+    have := congrArg String.toList h'
+    simp [String.toList_append] at this
+  · simp only [hi, hj, if_false] at h'
+    exact natToString_inj i j (str_append_left_cancel _ _ _ h')
+
+/-- C34_wall_name_fresh: the name chosen by the `while name in used` loop is never in use. -/
+theorem C34_wall_name_fresh (used : List String) (a : Nat) : wallName used a ∉ used := by
   unfold wallName
   split
   · rename_i k hk
@@ -204,8 +243,8 @@ theorem C34_wall_name_fresh (used : List String) (a : Nat)
       intro k hk
       have := hnone k (List.mem_range.mpr hk)
       simpa using this
-    have hnodup : ((List.range (used.length + 1)).map (wallCandidate a)).Nodup := by
-      exact List.Nodup.map (fun i j h => hinj i j h) List.nodup_range
+    have hnodup : ((List.range (used.length + 1)).map (wallCandidate a)).Nodup :=
+      List.Nodup.map (fun i j h => wallCandidate_injective a i j h) List.nodup_range
     have hsub : ((List.range (used.length + 1)).map (wallCandidate a)) ⊆ used := by
       intro x hx
       simp only [List.mem_map, List.mem_range] at hx
@@ -213,5 +252,234 @@ theorem C34_wall_name_fresh (used : List String) (a : Nat)
       exact hall k hk
     have := (List.subperm_of_subset hnodup hsub).length_le
     simp at this
+
+example : wallNames ["vol", "_sym_wall_x", "_sym_wall_x_1"] [0, 2] = ["_sym_wall_x_2", "_sym_wall_z"] := by decide
+
+/-! ### explicit non-uniform grids -/
+section Grid
+
+/-- C34_grid_nonsym -/
+theorem C34_grid_nonsym {α : Type} [Sub α] [Mul α] [Neg α] [OfNat α 0] (le : α → α → Bool) (rtol : α)
+    (e : List α) : reduceEdges le rtol 0 e = .ok e := by
+  simp [reduceEdges]
+
+/-- C34_grid_kept_edges: an accepted symmetric axis keeps exactly the upper-half edges. -/
+theorem C34_grid_kept_edges {α : Type} [Sub α] [Mul α] [Neg α] [OfNat α 0] (le : α → α → Bool) (rtol : α)
+    (sym : Int) (hs : sym ≠ 0) (e r : List α) (h : reduceEdges le rtol sym e = .ok r) :
+    (e.length - 1) % 2 = 0 ∧ 2 ≤ e.length - 1 ∧ r = e.drop ((e.length - 1) / 2) ∧
+    r.length = (e.length - 1) / 2 + 1 ∧ ∀ i, r[i]? = e[(e.length - 1) / 2 + i]? := by
+  unfold reduceEdges at h
+  rw [if_neg hs] at h
+  simp only at h
+  split_ifs at h with hb hm
+  simp only [Except.ok.injEq] at h
+  have hb' : ¬ (((e.length : Int) - 1 < 2) ∨ ((e.length : Int) - 1) % 2 ≠ 0) := by
+    intro hc; apply hb; simp only [badCells, Bool.or_eq_true, decide_eq_true_eq, bne_iff_ne]; exact hc
+  have h2 : 2 ≤ e.length - 1 := by omega
+  have he : (e.length - 1) % 2 = 0 := by omega
+  subst h
+  refine ⟨he, h2, rfl, ?_, ?_⟩
+  · rw [List.length_drop]; omega
+  · intro i; rw [List.getElem?_drop]
+
+/-- C34_grid_cells_agree: same acceptance of the cell count and same reduced cell count as the integer-slice
+    reduction of a volume `[0, n)` on this axis. -/
+theorem C34_grid_cells_agree {α : Type} [Sub α] [Mul α] [Neg α] [OfNat α 0] (le : α → α → Bool) (rtol : α)
+    (sym : Int) (hs : sym ≠ 0) (e : List α) (he : 1 ≤ e.length) :
+    let n : Int := (e.length : Int) - 1
+    (reduceEdges le rtol sym e = .error .cells ↔ planeIndex sym (0, n) = none) ∧
+    ∀ r, reduceEdges le rtol sym e = .ok r →
+      planeIndex sym (0, n) = some (n / 2) ∧
+      ((r.length : Int) - 1) = (reducedVol sym (0, n) (n / 2)).2 - (reducedVol sym (0, n) (n / 2)).1 := by
+  intro n
+  constructor
+  · unfold reduceEdges planeIndex
+    rw [if_neg hs, if_pos hs]
+    by_cases hb : badCells ((e.length : Int) - 1) = true
+    · simp [hb, n]
+    · simp only [hb, n, Bool.false_eq_true, if_false, sub_zero]
+      split_ifs <;> simp
+  · intro r hr
+    obtain ⟨h1, h2, _, h4, _⟩ := C34_grid_kept_edges le rtol sym hs e r hr
+    have hn : n = ((e.length - 1 : Nat) : Int) := by omega
+    constructor
+    · have hb : badCells n = false := by
+        simp only [badCells, Bool.or_eq_false_iff, decide_eq_false_iff_not, not_lt]
+        constructor
+        · omega
+        · simp only [bne_eq_false_iff_eq]; omega
+      simp [planeIndex, hs, hb]
+    · simp only [reducedVol, hs, ne_eq, not_false_eq_true, if_true]
+      rw [h4]; omega
+
+variable {K : Type} [Field K] [LinearOrder K] [IsStrictOrderedRing K]
+
+/-- the comparison used in the theorems -/
+def leK (a b : K) : Bool := decide (a ≤ b)
+
+theorem absv_leK (x : K) : absv leK x = |x| := by
+  unfold absv leK
+  by_cases h : (0 : K) ≤ x
+  · simp [h, abs_of_nonneg h]
+  · simp [h, abs_of_neg (lt_of_not_ge h)]
+
+theorem closeTo_leK (rtol a b : K) : closeTo leK rtol a b = true ↔ |a - b| ≤ rtol * |b| := by
+  unfold closeTo
+  rw [absv_leK, absv_leK]
+  simp [leK]
+
+/-- what `allclose(w, w[::-1], rtol, 0)` requires -/
+theorem mirrorSymmetric_iff (rtol : K) (w : List K) :
+    mirrorSymmetric leK rtol w = true ↔
+      ∀ i (hi : i < w.length), |w[i] - w[w.length - 1 - i]| ≤ rtol * |w[w.length - 1 - i]| := by
+  unfold mirrorSymmetric
+  rw [List.all_eq_true]
+  constructor
+  · intro h i hi
+    have hmem : closeTo leK rtol w[i] w[w.length - 1 - i] ∈ List.zipWith (closeTo leK rtol) w w.reverse := by
+      rw [List.mem_iff_getElem]
+      refine ⟨i, by simp [hi], ?_⟩
+      simp [List.getElem_zipWith, List.getElem_reverse]
+    have := h _ hmem
+    simpa [closeTo_leK] using this
+  · intro h x hx
+    rw [List.mem_iff_getElem] at hx
+    obtain ⟨i, hi, rfl⟩ := hx
+    have hi' : i < w.length := by simpa using hi
+    simp only [List.getElem_zipWith, List.getElem_reverse, id]
+    rw [closeTo_leK]
+    exact h i hi'
+
+/-- C34_grid_accept_spec: a symmetric axis is accepted iff its cell count is even, ≥ 2, and every width is within
+    `rtol` (relative to its partner) of its mirror partner. -/
+theorem C34_grid_accept_spec (rtol : K) (sym : Int) (hs : sym ≠ 0) (e : List K) :
+    (∃ r, reduceEdges leK rtol sym e = .ok r) ↔
+      (¬ badCells ((e.length : Int) - 1) = true ∧
+        ∀ i (hi : i < (widths e).length),
+          |(widths e)[i] - (widths e)[(widths e).length - 1 - i]| ≤ rtol * |(widths e)[(widths e).length - 1 - i]|) := by
+  unfold reduceEdges
+  rw [if_neg hs]
+  simp only
+  by_cases hb : badCells ((e.length : Int) - 1) = true
+  · simp [hb]
+  · by_cases hm : mirrorSymmetric leK rtol (widths e) = true
+    · have := (mirrorSymmetric_iff rtol (widths e)).mp hm
+      simp [hb, hm, this]
+    · have hm' := hm
+      rw [mirrorSymmetric_iff] at hm'
+      simp [hb, hm, hm']
+
+end Grid
+
+section RoundTrip
+variable {α : Type}
+
+theorem widths_drop [Sub α] (e : List α) (k : Nat) : widths (e.drop k) = (widths e).drop k := by
+  unfold widths
+  rw [List.drop_zipWith, List.drop_drop, List.drop_drop, Nat.add_comm]
+
+theorem widths_length [Sub α] (e : List α) : (widths e).length = e.length - 1 := by
+  unfold widths; simp
+
+/-- a palindrome of even length is the mirror of its upper half -/
+theorem mirror_upper_of_palindrome (w : List α) (m : Nat) (hl : w.length = 2 * m) (hp : w.reverse = w) :
+    mirrorWidths (w.drop m) = w := by
+  unfold mirrorWidths
+  have hsplit : w = w.take m ++ w.drop m := (List.take_append_drop m w).symm
+  have hrev : w.reverse = (w.drop m).reverse ++ (w.take m).reverse := by
+    conv_lhs => rw [hsplit]
+    rw [List.reverse_append]
+  have heq : (w.drop m).reverse ++ (w.take m).reverse = w.take m ++ w.drop m := by
+    rw [← hrev, hp]; exact hsplit
+  have hlen : ((w.drop m).reverse).length = (w.take m).length := by
+    simp [List.length_take, List.length_drop]; omega
+  have := (List.append_inj heq hlen).1
+  rw [this]; exact hsplit.symm
+
+/-- C34_grid_roundtrip: if the widths of the full axis are mirror-symmetric about the centre, mirroring the widths of
+    the reduced axis reproduces the widths of the full axis. -/
+theorem C34_grid_roundtrip [Sub α] [Mul α] [Neg α] [OfNat α 0] (le : α → α → Bool) (rtol : α)
+    (sym : Int) (hs : sym ≠ 0) (e r : List α) (h : reduceEdges le rtol sym e = .ok r)
+    (hp : (widths e).reverse = widths e) :
+    mirrorWidths (widths r) = widths e := by
+  obtain ⟨h1, h2, h3, _, _⟩ := C34_grid_kept_edges le rtol sym hs e r h
+  subst h3
+  rw [widths_drop]
+  apply mirror_upper_of_palindrome _ _ _ hp
+  rw [widths_length]; omega
+
+end RoundTrip
+
+section RoundTripField
+variable {K : Type} [Field K] [LinearOrder K] [IsStrictOrderedRing K]
+
+/-- with `rtol = 0` acceptance means exact mirror symmetry -/
+theorem palindrome_of_rtol_zero (w : List K) (h : mirrorSymmetric leK 0 w = true) : w.reverse = w := by
+  rw [mirrorSymmetric_iff] at h
+  apply List.ext_getElem (by simp)
+  intro i h1 h2
+  rw [List.getElem_reverse]
+  have := h i h2
+  rw [zero_mul] at this
+  have h0 : w[i] - w[w.length - 1 - i] = 0 := abs_eq_zero.mp (le_antisymm this (abs_nonneg _))
+  exact (sub_eq_zero.mp h0).symm
+
+/-- C34_grid_roundtrip_rtol0: a grid accepted with zero tolerance is reproduced exactly by mirroring. -/
+theorem C34_grid_roundtrip_rtol0 (sym : Int) (hs : sym ≠ 0) (e r : List K)
+    (h : reduceEdges leK 0 sym e = .ok r) : mirrorWidths (widths r) = widths e := by
+  apply C34_grid_roundtrip leK 0 sym hs e r h
+  apply palindrome_of_rtol_zero
+  unfold reduceEdges at h
+  rw [if_neg hs] at h
+  simp only at h
+  split_ifs at h with hb hm
+  simpa using hm
+
+/-- entries of the mirrored upper half: the partner below the centre, the entry itself above -/
+theorem mirror_getElem? {α : Type} (w : List α) (m : Nat) (hl : w.length = 2 * m) (i : Nat) (hi : i < w.length) :
+    (mirrorWidths (w.drop m))[i]? = if i < m then w[w.length - 1 - i]? else w[i]? := by
+  unfold mirrorWidths
+  have hd : (w.drop m).length = m := by rw [List.length_drop]; omega
+  by_cases hlow : i < m
+  · rw [if_pos hlow, List.getElem?_append_left (by rw [List.length_reverse, hd]; exact hlow),
+      List.getElem?_reverse (by rw [hd]; exact hlow), List.getElem?_drop, hd]
+    congr 1; omega
+  · rw [if_neg hlow, List.getElem?_append_right (by rw [List.length_reverse, hd]; omega),
+      List.length_reverse, hd, List.getElem?_drop]
+    congr 1; omega
+
+/-- C34_grid_roundtrip_tol: for an accepted grid every reconstructed width is within `rtol` (relative) of the
+    original width at the same position (and equal to it in the kept half). -/
+theorem C34_grid_roundtrip_tol (rtol : K) (sym : Int) (hs : sym ≠ 0) (e r : List K)
+    (h : reduceEdges leK rtol sym e = .ok r) (i : Nat) (hi : i < (widths e).length) :
+    ∃ x, (mirrorWidths (widths r))[i]? = some x ∧
+      (|x - (widths e)[i]| ≤ rtol * |(widths e)[i]| ∨ x = (widths e)[i]) := by
+  obtain ⟨h1, h2, h3, _, _⟩ := C34_grid_kept_edges leK rtol sym hs e r h
+  have hacc := ((C34_grid_accept_spec rtol sym hs e).mp ⟨r, h⟩).2
+  subst h3
+  have hwl := widths_length e
+  rw [widths_drop, mirror_getElem? (widths e) ((e.length - 1) / 2) (by omega) i hi]
+  by_cases hlow : i < (e.length - 1) / 2
+  · rw [if_pos hlow]
+    have hj : (widths e).length - 1 - i < (widths e).length := by omega
+    refine ⟨(widths e)[(widths e).length - 1 - i], by simp [hj], Or.inl ?_⟩
+    have key := hacc ((widths e).length - 1 - i) hj
+    have hback : (widths e).length - 1 - ((widths e).length - 1 - i) = i := by omega
+    simpa [hback] using key
+  · rw [if_neg hlow]
+    exact ⟨(widths e)[i], by simp [hi], Or.inr rfl⟩
+
+/-- non-vacuity: edges 0,1,3,5,6 (widths 1,2,2,1) over ℚ are accepted, keep 3,5,6 and round-trip -/
+example : reduceEdges (leK (K := ℚ)) 0 (-1) [0, 1, 3, 5, 6] = .ok [3, 5, 6] ∧
+    mirrorWidths (widths ([3, 5, 6] : List ℚ)) = widths [0, 1, 3, 5, 6] := by
+  constructor
+  · decide +kernel
+  · decide +kernel
+/-- … 0,1,3,4 (three cells) is rejected for its cell count, 0,1,3,6,7 for its widths -/
+example : reduceEdges (leK (K := ℚ)) 0 1 [0, 1, 3, 4] = .error .cells ∧
+    reduceEdges (leK (K := ℚ)) (1 / 10000) 1 [0, 1, 3, 6, 7] = .error .widths := by
+  constructor <;> decide +kernel
+
+end RoundTripField
 
 end Fdtdx.C34
